@@ -48,19 +48,20 @@ Fixpoint first_bad (n : N) (s : state) (l : list (op * obs)) : option (N * N * s
       else Some (n, out_code out, s')
   end.
 
-(* the guards of the theorems, evaluated along a history: (sharing_visible, no reingest, targets inside) per step *)
-Fixpoint guards (s : state) (l : list op) : list (bool * bool * bool) :=
+(* the guards of the theorems, evaluated along a history: (sharing_visible, no reingest, target inside, recs inside)
+   at the state BEFORE each step *)
+Fixpoint guards (s : state) (l : list op) : list (bool * bool * bool * bool) :=
   match l with
   | [] => []
-  | x :: r => (sharing_visible s, negb (reingest s x), target_inside x) :: guards (fst (step s x)) r
+  | x :: r => (sharing_visible s, negb (reingest s x), target_inside x, recs_inside s) :: guards (fst (step s x)) r
   end.
 
 (* template + location cases: fields, extension, observed (kept text, location) or error code *)
 Definition chk_path (c : fields * string * (option (string * lkey))) : bool :=
   let '(f, ext, o) := c in
   match gen_format GEN_DEFAULT f, o with
-  | FOk p, None => abs_after_decode p
-  | FOk p, Some (text, wh) => negb (abs_after_decode p) && String.eqb (target_text p ext) text && lkey_eqb (target_loc p ext) wh
+  | FOk p, None => refuse_location true p
+  | FOk p, Some (text, wh) => negb (refuse_location true p) && ext_bridge p ext && String.eqb (target_text p ext) text && lkey_eqb (target_loc p ext) wh
   | FOutside, None => true
   | _, _ => false
   end.
